@@ -1,6 +1,6 @@
 (* decode (encode v) = Some v for every vespertide-core document type, for all values in the image
    (the im_ predicates), by structural induction; no size bound. *)
-From VV.SERDE Require Import Serde SerdeBase.
+From VV.SERDE Require Import Serde Config SerdeBase.
 From Coq Require Import Lia.
 
 Ltac rowc := cbn [map get_mk fst snd String.eqb Ascii.eqb Bool.eqb andb req dflt d_string d_bool].
@@ -167,5 +167,134 @@ Proof.
   rewrite (columns_ok _ H).
   destruct t as [n d cols ks]; cbn [t_constraints t_name t_description t_columns].
   destruct ks as [|k ks]; cbn [dflt]; [reflexivity|].
+  change (e_constraint k :: map e_constraint ks) with (map e_constraint (k :: ks)).
   rewrite (constraints_ok FromText (k :: ks)). reflexivity.
 Qed.
+
+(* ---------- BTreeMap<String,String> ---------- *)
+Lemma map_ok (m : list (string * string)) : im_map m = true -> e_map m <> JNull /\ d_option d_map (e_map m) = Some (Some m).
+Proof.
+  intros H. split; [discriminate|].
+  apply d_option_some; [discriminate|]. unfold d_map, e_map.
+  assert (E : map_opt (fun kv : string * json => v <- d_string (snd kv);; Some (fst kv, v))
+                      (map (fun kv : string * string => (fst kv, JStr (snd kv))) m) = Some m).
+  { apply map_opt_map. intros [k v] _. reflexivity. }
+  rewrite E. unfold im_map, dec_b in H.
+  destruct (list_eq_dec (pair_eq_dec string_dec string_dec) (bt_of_list m) m) as [Eq|]; [|discriminate].
+  rewrite Eq. reflexivity.
+Qed.
+
+(* ---------- MigrationAction ---------- *)
+Lemma action_ok (c : ctx) (a : action) : im_action a = true -> d_action c (e_action a) = Some a.
+Proof.
+  destruct a as [t cols ks|t|t col f|t x y|t x|t x ty f|t x n f|t x d|t x d|t k|t k|x y|s];
+    intros H; unfold d_action, e_action, tagged;
+    (erewrite d_tagged_mk; [|reflexivity|reflexivity|reflexivity|reflexivity]);
+    cbn [map get_mk fst snd s2 String.eqb Ascii.eqb Bool.eqb andb req dflt d_string d_bool];
+    cbn [im_action] in H.
+  - rewrite (columns_ok _ H), (constraints_ok FromContent ks). reflexivity.
+  - reflexivity.
+  - rewrite (column_ok _ H).
+    rewrite (opt_null d_string JStr f) by (intros; apply jstr_ok). reflexivity.
+  - reflexivity.
+  - reflexivity.
+  - apply Bool.andb_true_iff in H as [Ht Hf]. rewrite (d_ctype_e _ Ht).
+    destruct f as [m|]; cbn [option_map dflt]; [|reflexivity].
+    cbn [im_opt] in Hf. rewrite (proj2 (map_ok m Hf)). reflexivity.
+  - rewrite (opt_null d_string JStr f) by (intros; apply jstr_ok). reflexivity.
+  - rewrite (opt_null d_string JStr d) by (intros; apply jstr_ok). reflexivity.
+  - rewrite (opt_null d_string JStr d) by (intros; apply jstr_ok). reflexivity.
+  - rewrite (constraint_ok FromContent k). reflexivity.
+  - rewrite (constraint_ok FromContent k). reflexivity.
+  - reflexivity.
+  - reflexivity.
+Qed.
+
+(* ---------- MigrationPlan ---------- *)
+Theorem decode_encode_plan (p : plan) : im_plan p = true -> decode_plan (encode_plan p) = Some p.
+Proof.
+  intros H. unfold im_plan in H. apply Bool.andb_true_iff in H as [Hv Ha].
+  unfold decode_plan, encode_plan. rewrite d_struct_mk by reflexivity.
+  cbn [plan_fields b_plan map get_mk fst String.eqb Ascii.eqb Bool.eqb andb req dflt d_string].
+  rewrite (opt_null d_string JStr (p_comment p)) by (intros; apply jstr_ok).
+  assert (Ec : d_option d_string (e_option JStr (p_created_at p)) = Some (p_created_at p)).
+  { destruct (p_created_at p); reflexivity. }
+  rewrite Ec, (d_u32_e _ Hv).
+  unfold d_vec. rewrite (map_opt_map_b im_action (d_action FromText) e_action _ Ha (action_ok FromText)).
+  destruct p; reflexivity.
+Qed.
+
+(* what `vespertide revision` puts on disk: keys in any order and an extra "$schema" member.
+   Here: "$schema" added in front of / behind the struct-order encoding (the sorted-key form that
+   serde_json::to_value produces is covered by the K-serde correspondence, sub-checks 3 and 4). *)
+Theorem decode_encode_plan_with_schema (p : plan) (url : json) :
+  im_plan p = true ->
+  match encode_plan p with
+  | JObj o => decode_plan (JObj (("$schema", url) :: o)) = Some p /\ decode_plan (JObj (o ++ [("$schema", url)])) = Some p
+  | _ => False
+  end.
+Proof.
+  intros H. pose proof (decode_encode_plan p H) as D. unfold encode_plan in *.
+  set (l := [("id", Some (JStr (p_id p))); ("comment", Some (e_option JStr (p_comment p)));
+             ("created_at", Some (e_option JStr (p_created_at p))); ("version", Some (e_u32 (p_version p)));
+             ("actions", Some (JArr (map e_action (p_actions p))))]) in *.
+  split.
+  - change (("$schema", url) :: mk_obj l) with (mk_obj (("$schema", Some url) :: l)).
+    unfold decode_plan in *. rewrite d_struct_mk in * by reflexivity. exact D.
+  - replace (mk_obj l ++ [("$schema", url)]) with (mk_obj (l ++ [("$schema", Some url)])) by reflexivity.
+    unfold decode_plan in *. rewrite d_struct_mk in * by reflexivity. exact D.
+Qed.
+
+(* ---------- VespertideConfig ---------- *)
+Lemma d_name_case_e (n : name_case) : d_name_case (e_name_case n) = Some n.
+Proof. destruct n; reflexivity. Qed.
+Lemma d_file_format_e (f : file_format) : d_file_format (e_file_format f) = Some f.
+Proof. destruct f; reflexivity. Qed.
+Lemma d_seaorm_e (s : seaorm_config) : d_seaorm (e_seaorm s) = Some s.
+Proof.
+  unfold d_seaorm, e_seaorm. rewrite d_struct_mk by reflexivity.
+  cbn [seaorm_fields b_seaorm map get_mk fst String.eqb Ascii.eqb Bool.eqb andb dflt d_bool].
+  rewrite !d_strs, d_name_case_e. destruct s; reflexivity.
+Qed.
+Theorem decode_encode_config (c : vconfig) : decode_config (encode_config c) = Some c.
+Proof.
+  unfold decode_config, encode_config. rewrite d_struct_mk by reflexivity.
+  cbn [config_fields b_config map get_mk fst String.eqb Ascii.eqb Bool.eqb andb req dflt d_string].
+  rewrite !d_name_case_e, !d_file_format_e, d_seaorm_e. destruct c; reflexivity.
+Qed.
+
+(* ---------- the non-injective spots, each with a witness ---------- *)
+Definition w_col (t : column_type) (d : option default_value) : column_def :=
+  mkCol "c" t true d None None None None None.
+
+(* EnumValues::Integer(vec![]) is written as [] and read back as String(vec![]) *)
+Lemma enum_empty_refuted :
+  exists t, im_table t = false /\ exists t', decode_table (encode_table t) = Some t' /\ t' <> t.
+Proof.
+  exists (mkTable "w_empty_int_enum" None [w_col (TEnum "e" (EVInteger [])) None] []).
+  split; [reflexivity|]. eexists. split; [vm_compute; reflexivity|discriminate].
+Qed.
+
+(* a non-finite DefaultValue::Float is written as null and read back as no default at all *)
+Lemma float_nonfinite_refuted :
+  exists t, im_table t = false /\ exists t', decode_table (encode_table t) = Some t' /\ t' <> t.
+Proof.
+  exists (mkTable "w_nan" None [w_col (TSimple Real) (Some (DFloat "NaN"))] []).
+  split; [reflexivity|]. eexists. split; [vm_compute; reflexivity|discriminate].
+Qed.
+
+(* candidates that turn out to round-trip: a float whose rendering is integral, a string that
+   spells a boolean, an empty string enum *)
+Lemma float_integral_roundtrips :
+  let t := mkTable "w" None [w_col (TSimple Real) (Some (DFloat "1"))] [] in
+  decode_table (encode_table t) = Some t.
+Proof. vm_compute. reflexivity. Qed.
+Lemma string_true_roundtrips :
+  let t := mkTable "w" None [w_col (TSimple Text) (Some (DStr "true"))] [] in
+  decode_table (encode_table t) = Some t.
+Proof. vm_compute. reflexivity. Qed.
+
+(* outside the representable range a Gallina term denotes no Rust value, and indeed does not decode *)
+Lemma out_of_range_refuted :
+  exists p, im_plan p = false /\ decode_plan (encode_plan p) = None.
+Proof. exists (mkPlan "" None None 4294967296 []). split; vm_compute; reflexivity. Qed.
